@@ -10,7 +10,7 @@ from vt.ref import hap, tlv8
 META = dict(
     level="fault_enumeration",
     engine="E3",
-    technique="exhaustive fault enumeration (every bit of proof / M6 wire / signature / key, structural edits, wrong keys, nonces, codes, re-binding) of accessory replies against the real pair-setup generators, judged by an independent reference accessory/acceptor",
+    technique="exhaustive fault enumeration (every bit of proof / M6 wire / signature / key, structural edits, wrong keys, nonces, codes, re-binding) of accessory replies against the real pair-setup generators, judged by an independent reference accessory/acceptor; plus exhaustive bounded histories of pairing attempts (right/wrong code, link loss at every transport operation, restarts) through the IP, BLE and CoAP discovery APIs against the reference pair-setup service",
     text="each execution replays M1..M5 of the real generators against a reference accessory and then injects one member "
     "of the adversary alphabet at M2, M4 or M6; a reference acceptor classifies the M6 (authentic iff it opens under the "
     "exchange key and carries a valid signature by the key it presents over AccessoryX|id|key); forged must raise and return "
@@ -298,6 +298,25 @@ def case_setup(p):
 
 
 CASES = {"setup": case_setup}
+from vt.props import c03_api  # noqa: E402
+
+CASES.update(c03_api.CASES)
+
+
+def _work_api(item, seed, tier):
+    acc = core.Acc()
+    for p in item:
+        p = dict(p, seed=seed)
+        v = c03_api.case_history(p)
+        trace = p.pop("_trace", [])
+        p.pop("_ops", None)
+        acc.case(key=("api", core.jsonable(p)), outcome=f"api:{p['transport']}:{'/'.join(str(t[1]) for t in trace)}:{'ok' if not v else v[0][0]}", sample={"case": "api_history", "params": p},
+                 symbols=("api", f"api:{p['transport']}") + tuple(f"api-op:{o.partition('@')[0]}" for o in p["ops"]) + (("api:paired",) if any(t[1] == "ret" for t in trace) else ()))
+        for sig, detail in v:
+            if sig.startswith("harness:"):
+                raise core.HarnessError(f"{sig} {detail}")
+            acc.violation(sig, "api_history", p, detail)
+    return acc
 
 
 def _work(item, seed, tier):
@@ -360,6 +379,9 @@ def run(ctx):
         for style in pairdrv.STYLES:
             plist += [{"cfg": cfg, "style": style, "fault": f, "arg": a} for f, a in (("honest", None), ("m4-proof-bitflip", 7), ("m6-sig-bitflip", 9), ("m6-wrong-key", None), ("m4-proof-tail", 63))]
     ctx.pmap(_work, [plist[i : i + 12] for i in range(0, len(plist), 12)])
+    hs = list(c03_api.histories(ctx.tier, ctx.seed))
+    ctx.pmap(_work_api, [hs[i : i + 8] for i in range(0, len(hs), 8)])
+    ctx.bounds.update(api_histories=len(hs), api_alphabet="start | finish(right) | finish(wrong) | link loss at every transport operation of an attempt; length <= " + ("4" if quick else "5"))
     ctx.exhaustive = True
     ctx.bounds.update(configs=len(cfgs), styles=list(pairdrv.STYLES), bits="one bit per byte (seed-selected)" if quick else "all bits")
     a = ctx.acc
@@ -367,3 +389,6 @@ def run(ctx):
     ctx.require(N_BASE == 5, "config numbering")
     ctx.require(a.symbols["verdict:forged"] >= 100, "too few forged M6")
     ctx.require(a.symbols["verdict:variant"] >= 1, "no authentic-variant M6 (other consistent identity)")
+    for t in ("ip", "ble", "coap"):
+        ctx.require(a.symbols[f"api:{t}"] >= 10, f"api histories missing for {t}")
+    ctx.require(a.symbols["api:paired"] >= 30 and a.symbols["api-op:wrong"] >= 6 and a.symbols["api-op:right-drop"] >= 10, "api histories vacuous")
